@@ -525,33 +525,49 @@ theorem obEndBlock_same : ∀ (fuel : Nat) (s : State) (n i : Nat) (s' : State),
     settled with a result, to `markSettled`; on the way only balances and the book change -/
 theorem settleBet_shape {s s' : State} {c u : Nat} (h : settleBet s c u = some s') :
     ∃ (b0 : Bet) (s2 : State) (res : Nat), b0 ∈ s.bets ∧ b0.status ≠ BS_SETTLED ∧ SameBets s s2 ∧
-      s' = markSettled s2 { b0 with status := BS_SETTLED, result := res } := by
+      s' = markSettled s2 { b0 with status := BS_SETTLED, result := res } ∧
+      b0.creator = c ∧ ∃ bet0 ∈ s.bets, bet0.uid = u ∧ bet0.id = b0.id := by
   unfold settleBet at h
   simp only [bind, Option.bind_eq_some_iff] at h
-  obtain ⟨bet0, _, bet, hb, _, hst, m, hm, h⟩ := h
+  obtain ⟨bet0, hf, bet, hb, _, hst, m, hm, h⟩ := h
   have hst := chk_some hst
   have hns : bet.status ≠ BS_SETTLED := by
     intro e; simp [e] at hst
   have hin : bet ∈ s.bets := by
     unfold lookup at hb
     exact List.mem_of_find?_eq_some hb
+  have hk : bet.creator = c ∧ bet.id = bet0.id := by
+    unfold lookup at hb
+    have := List.find?_some hb
+    simpa [Bet.key] using this
+  have h0 : ∃ bet0 ∈ s.bets, bet0.uid = u ∧ bet0.id = bet.id :=
+    ⟨bet0, List.mem_of_find?_eq_some hf, by simpa using List.find?_some hf, hk.2.symm⟩
   split at h
   · unfold settleRefund at h
     simp only [bind, Option.bind_eq_some_iff, pure, Option.some.injEq] at h
     obtain ⟨s1, h1, s2, h2, rfl⟩ := h
-    exact ⟨bet, s2, BR_REFUNDED, hin, hns, (bankSend_same h1).trans (bankSend_same h2), rfl⟩
+    exact ⟨bet, s2, BR_REFUNDED, hin, hns, (bankSend_same h1).trans (bankSend_same h2), rfl, hk.1, h0⟩
   · simp only [Option.bind_eq_some_iff] at h
     obtain ⟨_, _, h⟩ := h
     unfold settleDeclared at h
     simp only [bind, Option.bind_eq_some_iff, pure, Option.some.injEq] at h
     obtain ⟨bk, _, r, hr, s2, h2, rfl⟩ := h
-    refine ⟨bet, s2, _, hin, hns, ?_, rfl⟩
+    refine ⟨bet, s2, _, hin, hns, ?_, rfl, hk.1, h0⟩
     refine SameBets.trans ?_ (bankSend_same h2)
     exact ⟨rfl, rfl, rfl, rfl, rfl⟩
 
+/-- under the invariant the two look-ups of `Settle` (by uid, then by (creator, id)) land on the same bet: the bet
+    that is settled is the stored bet with the uid AND the creator `Settle` was called with -/
+theorem settleBet_target {s s' : State} {c u : Nat} (hI : BetIdx s) (h : settleBet s c u = some s') :
+    ∃ b0 ∈ s.bets, b0.uid = u ∧ b0.creator = c ∧ b0.status ≠ BS_SETTLED ∧ ∃ (s2 : State) (res : Nat), SameBets s s2 ∧
+      s' = markSettled s2 { b0 with status := BS_SETTLED, result := res } := by
+  obtain ⟨b0, s2, res, hb0, hns, e, hs', hc, bet0, hbet0, hu, hid⟩ := settleBet_shape h
+  rw [hI.idInj bet0 hbet0 b0 hb0 hid] at hu
+  exact ⟨b0, hb0, hu, hc, hns, s2, res, e, hs'⟩
+
 theorem settleBet_good {s s' : State} {c u : Nat} (hI : BetIdx s) (h : settleBet s c u = some s') :
     BetIdx s' ∧ Settles s s' := by
-  obtain ⟨b0, s2, res, hb0, hns, e, rfl⟩ := settleBet_shape h
+  obtain ⟨b0, s2, res, hb0, hns, e, rfl, _⟩ := settleBet_shape h
   have g := settle_good (s' := markSettled s2 { b0 with status := BS_SETTLED, result := res }) (hI.of_same e) b0
     (by rw [e.1]; exact hb0) hns res rfl rfl rfl rfl rfl
   exact ⟨g.1, (Settles.of_same e).trans g.2⟩
